@@ -20,6 +20,7 @@ EXPLANATION = ("One ledger, decided structurally: (R1) dimension-and-scale infer
                "is a sum of it and peak = max(previous peak, aggregate)."
                ' Added in round 3: aggregate power / current as defined (shared with C18), the ledger starts at zero, the loop-structure rules of C01 incl. array growth; generic well-formedness of every analysed function.'
                ' Added after the mutation matrix: the stored gain, the reported power and the returned rate carry the same energy as identities between source expressions (term rewriting) for all three battery routines; generic rules G1-G3.')
+EXPLANATION += " Added in rounds 4-5: when the measured rates are kept in an attribute, every caller of the EVSE-level unplug() clears the station's slot on the same path (cache coherence); generic rules G4 / G5."
 NOT_DECIDED = "float equality of the three stored totals over a run"
 
 ALLOWED_WRITERS = {
